@@ -371,12 +371,78 @@ where
     format!("{} | [{}]", out.join(" "), h_common::join(&drained, ","))
 }
 
+/// `buffer <n> <gap_us>`: n independent operations are fed, `gap_us` apart, through the public
+/// stream layer (`ProcessorStream` -> `Buffer`, whose `select!` drops the pending `next()` future
+/// whenever input arrives) around the real `Orderer`.  Timing dependent, hence only reported:
+/// `delivered=<m>/<n> flagged_out=<rows with in_queue = FALSE> queued=<rows still queued>`.
+async fn run_buffer(n: u64, gap_us: u64, sql: &SqliteStore) -> String {
+    use futures_util::StreamExt;
+    use p2panda_stream::StreamLayerExt;
+    let steps: Vec<Step> = (0..n).map(|i| Step::Deliver(i, vec![])).collect();
+    let graph = OpGraph::build(&steps);
+    {
+        let log_id = Topic::random();
+        let permit = sql.begin().await.unwrap();
+        for op in graph.ops.values() {
+            sql.insert_operation(&op.hash, op, &log_id).await.unwrap();
+        }
+        sql.commit(permit).await.unwrap();
+    }
+    let local = tokio::task::LocalSet::new();
+    let delivered: Vec<u64> = local
+        .run_until(async {
+            let orderer: Orderer<Op, Hash, SqliteStore> = Orderer::new(sql.clone());
+            let (tx, rx) = tokio::sync::mpsc::unbounded_channel::<Op>();
+            let input = futures_util::stream::unfold(rx, |mut rx| async move { rx.recv().await.map(|x| (x, rx)) });
+            let mut stream = Box::pin(input.layer(orderer));
+            let ops: Vec<Op> = (0..n).map(|i| graph.ops[&i].clone()).collect();
+            let feeder = tokio::task::spawn_local(async move {
+                for op in ops {
+                    let _ = tx.send(op);
+                    if gap_us > 0 {
+                        tokio::time::sleep(Duration::from_micros(gap_us)).await;
+                    } else {
+                        tokio::task::yield_now().await;
+                    }
+                }
+                // keep the sender alive: a closed input ends the buffer task
+                tokio::time::sleep(Duration::from_secs(3600)).await;
+            });
+            let mut got: Vec<u64> = Vec::new();
+            loop {
+                match tokio::time::timeout(Duration::from_millis(4000), stream.next()).await {
+                    Ok(Some(Ok(op))) => got.push(graph.index[&op.hash]),
+                    Ok(Some(Err(_))) => break,
+                    Ok(None) => break,
+                    Err(_) => break, // idle: nothing more is coming
+                }
+                if got.len() as u64 >= n {
+                    break;
+                }
+            }
+            feeder.abort();
+            drop(stream);
+            got
+        })
+        .await;
+    // the aborted buffer task (its pending `next()` holds the transaction permit) dies with the set
+    drop(local);
+    settle().await;
+    let Ok((all, queued)) = tokio::time::timeout(Duration::from_secs(10), counts(sql)).await else {
+        return format!("delivered={}/{} STUCK", delivered.len(), n);
+    };
+    let mut d = delivered.clone();
+    d.sort();
+    d.dedup();
+    format!("delivered={}/{} flagged_out={} queued={} distinct={}", delivered.len(), n, all - queued, queued, d.len())
+}
+
 pub async fn run(tokens: &[&str]) -> String {
     let mode = tokens[0];
     let mut step_tokens: Vec<&str> = Vec::new();
     let mut attempts: Vec<String> = Vec::new();
     let mut order: Vec<bool> = Vec::new();
-    for t in &tokens[1..] {
+    for t in if mode == "buffer" { &tokens[..0] } else { &tokens[1..] } {
         if let Some(a) = t.strip_prefix("a:").or_else(|| t.strip_prefix("k:")) {
             attempts.push(a.to_string());
             order.push(true);
@@ -405,7 +471,11 @@ pub async fn run(tokens: &[&str]) -> String {
         .build()
         .await
         .expect("database");
-    let result = run_on(mode, &steps, &attempts, &order, &graph, &sql).await;
+    let result = if mode == "buffer" {
+        run_buffer(tokens[1].parse().expect("n"), tokens[2].parse().expect("gap"), &sql).await
+    } else {
+        run_on(mode, &steps, &attempts, &order, &graph, &sql).await
+    };
     sql.pool().close().await;
     for ext in ["", "-wal", "-shm"] {
         let _ = std::fs::remove_file(format!("{}{}", path.display(), ext));
